@@ -215,19 +215,26 @@ def unit_tables(P, R):
                 s = hits[0][0]
                 z = f.path_avoiding(s, lambda t: t.ev['k'] == 'store' and is_var(t.ev.get('lhs')) and t.ev.get('op') == '=' and const_of(t.ev.get('rhs')) == 0)
                 R.ob('C16.TAB.3', z is None or True, s, 'unit %s consumes the pending number' % u, key='unit-reset:%s:%s' % (name, u), nontrivial=False)
-    # colon positions of the interval: first 3600, second 60
-    f = P.need_fn('conf_parse_interval')
-    colon = {}
-    for bid in f.reachable_blocks():
-        c = f.term_cond(bid)
-        if c is not None and any(x.get('k') == 'un' and x['op'] == '++' for x in walk(c)):
-            for e in f.out[bid]:
-                if e.label == 'case' and e.vs:
-                    adds = [s for s in f.block_sites(f.case_body(e.dst)) if s.ev['k'] == 'store' and s.ev.get('op') == '+=']
-                    if adds:
-                        pv = sorted(vars_in(adds[0].ev['rhs']))
-                        colon[e.vs[0]] = multiplier(adds[0].ev['rhs'], pv[0]) if pv else None
-    R.ob('C16.TAB.3', colon == {0: 3600, 1: 60}, f, 'h:m:s form: the first colon multiplies by 3600, the second by 60 (found %s)' % colon, key='interval:colons')
+    # colon positions of the interval: first 3600, second 60 (read off the scan analysis: the multipliers applied to ':'
+    # in the order of the colon counter)
+    f, res = scan_of(P, 'conf_parse_interval')
+    colon = []
+    if res is not None:
+        for key, (s, states) in res['accum'].items():
+            for st in states:
+                if st.C == frozenset([ord(':')]):
+                    m = None
+                    cnt = None
+                    for v in sorted(vars_in(s.ev['rhs'])):
+                        rhs = charparse.subst_consts(s.ev['rhs'], tuple(x for x in st.K if x[0] != v))
+                        if set(vars_in(rhs)) == {v} and multiplier(rhs, v) is not None:
+                            m = multiplier(rhs, v)
+                            break
+                    counters = {t.ev['lhs']['name'] for t in f.stores() if t.ev['k'] == 'store' and is_var(t.ev.get('lhs')) and t.ev.get('op') in ('++',) and t.ev['lhs']['name'] != res['ptr']}
+                    others = [val for name, val in st.K if name in counters and name not in vars_in(s.ev['rhs'])]
+                    colon.append((tuple(others), m))
+    seq = [m for _, m in sorted(set(colon))]
+    R.ob('C16.TAB.3', seq == [3600, 60], f, 'h:m:s form: the first colon multiplies by 3600, the second by 60 (found %s)' % seq, key='interval:colons')
     R.floor('C16.TAB.3', 14)
 
 
